@@ -6,7 +6,8 @@ DISAGREEMENT_IS_FAILING_INPUT = False
 RULE = ("requests: Read over an adversarial scripted reader (1-byte reads, random chunk sizes, Interrupted before any chunk, an I/O error of every kind - Other, WouldBlock, TimedOut, UnexpectedEof, BrokenPipe, InvalidData, OutOfMemory, Unsupported - or end of data at every offset; a quarter of the readers bring their own read_exact from which Interrupted escapes after partial progress, `rx=naive`) under "
         "random interleavings of next_u32 / next_u64 / fill_bytes(len) / jump with panics caught per operation; Mock over word lists incl. exhaustion and jump. "
         "Every output (value, bytes, panic) compared with the model; oracle: successful outputs are exactly the next bytes of the data in order, little-endian. "
-        "non-trivial = at least one op; distinct = distinct request line")
+        "non-trivial = at least one op; distinct = distinct request line"
+        " Since round 10 (extra): typed fills of 4200..100000 bytes from Mock (element sizes 3 and 20) against the little-endian serialisation of the provided words.")
 ASSUMPTIONS = ["std::io::Read::read_exact is modelled by its documented loop", "for a reader with its own read_exact (rx=naive) an escaping Interrupted is modelled as an error of the call (the generator panics); the oracle accepts a panic or exactly the next source bytes"]
 
 
